@@ -5,6 +5,7 @@
 
 #include "libphysica/Integration.hpp"
 #include "libphysica/Special_Functions.hpp"
+#include "libphysica/Verif_Hooks.hpp"
 
 namespace libphysica
 {
@@ -296,6 +297,7 @@ unsigned int Sample_Poisson(std::mt19937& PRNG, double expectation_value)	// Alg
 	double p		   = 1.0;
 	do
 	{
+		LIBPHYSICA_VERIF_TICK("Sample_Poisson.draw");
 		k++;
 		double u = Sample_Uniform(PRNG, 0.0, 1.0);
 		p		 = p * u;
@@ -304,6 +306,7 @@ unsigned int Sample_Poisson(std::mt19937& PRNG, double expectation_value)	// Alg
 			if(lambda_left > STEP)
 			{
 				p = p * exp(STEP);
+				LIBPHYSICA_VERIF_TICK("Sample_Poisson.rescale");
 				lambda_left -= STEP;
 			}
 			else
@@ -342,6 +345,7 @@ double Rejection_Sampling(const std::function<double(double)>& PDF, double xMin,
 	int count = 0;
 	while(!success)
 	{
+		LIBPHYSICA_VERIF_TICK("Rejection_Sampling.trial");
 		count++;
 
 		// Inefficiency warning and error
